@@ -243,13 +243,50 @@ def handleNorm (j : Json) : Except String Json := do
       ("printedKey", Json.str (enhex (GqlModel.Normalize.printedKey d))),
       ("synth", Json.mkObj (synth.map (fun (k, v) => (k, Driver.SchemaJson.encJVal v))))]
 
+/-! ### interleaved primitives (nested / concurrent Gets): `lookup` and `store` as separate steps -/
+
+def decPrim (j : Json) : Except String (Prim Nat) := do
+  match j with
+  | .str "reset" => pure .reset
+  | _ =>
+    match (← j.getArr?).toList with
+    | [k, s, key] => do
+      let kind ← k.getStr?
+      let s ← s.getNat?
+      let key ← unhex (← key.getStr?)
+      if kind == "lookup" then pure (.lookup s key)
+      else if kind == "store" then pure (.store s key)
+      else throw s!"bad primitive {kind}"
+    | _ => throw "primitive must be [kind, schemaPtr, keyHex]"
+
+/-- each `store` stores its own step index (the harness knows which `Get` that was); each step is the model's
+`stepPrim store` (theorem `interleaved_transparent` is about `runPrim store`) -/
+def runPrims : Nat → Cache Nat Nat → List (Prim Nat) → List Json → List Json
+  | _, _, [], acc => acc.reverse
+  | i, c, o :: os, acc =>
+    let (c', out) := stepPrim store (fun _ _ => i) c o
+    let o := match out with
+      | some (some r) => [("o", Json.str "hit"), ("built", Json.num r)]
+      | some none => [("o", Json.str "miss")]
+      | none => [("o", Json.str "-")]
+    runPrims (i + 1) c' os (Json.mkObj (o ++ snapshot (some c') true) :: acc)
+
+def handlePrims (j : Json) : Except String Json := do
+  let me ← Driver.getInt j "maxEntries"
+  let ops ← (← Driver.getArr j "ops").toList.mapM decPrim
+  let c0 : Cache Nat Nat := newPlanCache ⟨me, 0, false⟩
+  return Json.mkObj [("steps", Json.arr (runPrims 0 c0 ops []).toArray)]
+
 def handle (j : Json) : Except String Json :=
   match Driver.getOpt j "fp" with
   | some f => handleFp f
   | none =>
     match Driver.getOpt j "norm" with
     | some n => handleNorm n
-    | none => handleHistory j
+    | none =>
+      match Driver.getOpt j "prims" with
+      | some p => handlePrims p
+      | none => handleHistory j
 
 end Driver.C06
 
